@@ -1,7 +1,11 @@
 #!/bin/bash
 # try_seed.sh <patch.diff> <PROP>... : apply a seeded change to /repo, run the checks, undo it.
+# (/repo's tracked changes must be committed first: the undo is `git checkout -- .`; evidence files written
+# while the patch is applied are restored afterwards)
 P="$1"; shift
 git -C /repo apply "$P" || { echo "patch does not apply"; exit 3; }
+T=$(mktemp -d /tmp/try_seed.XXXXXX); cp /verif/evidence/*.json $T/ 2>/dev/null
 for id in "$@"; do /verif/check "$id" 2>&1 | grep -E "^FAILED|^REGRESSED|^VIOLATION|^UNDECIDED|^property|^KNOWN" | cut -c1-260; done
 git -C /repo checkout -- . 
+cp $T/*.json /verif/evidence/ 2>/dev/null; rm -rf $T
 git -C /repo status --short | head -3
